@@ -1021,6 +1021,17 @@ class ExcAnalysis:
                 out.extend(self._op("ValueError", call, fn))
             elif name == "next" and len(call.args) == 1:
                 out.extend(self._op("StopIteration", call, fn))
+            elif name in ("exec", "eval") and call.args:
+                src = self._fold(call.args[0], fn)
+                cls = "Exception"
+                if isinstance(src, str):
+                    try:
+                        for sn in ast.walk(ast.parse(src)):
+                            if isinstance(sn, ast.Raise) and sn.exc is not None:
+                                cls = unparse(sn.exc.func if isinstance(sn.exc, ast.Call) else sn.exc).split(".")[-1]
+                    except SyntaxError:
+                        cls = "SyntaxError"
+                out.extend(self._op(cls, call, fn, f"{name}({unparse(call.args[0])[:60]}) runs dynamic code"))
             elif name == "chr" and call.args:
                 v = self._fold(call.args[0], fn)
                 if not (isinstance(v, int) and 0 <= v < 0x110000):
